@@ -94,7 +94,7 @@ def leaf_matcher(d):
 def leaf_oracle(d, s):
     """independent predicate: does leaf d accept the string s (paths relative to the scratch dir)"""
     k = d[0]
-    p = os.path.join(SCRATCH, s)
+    p = os.path.join(SCRATCH, s) if s else ""       # the empty path names nothing
     if k == "regex":
         return re.compile(d[1]).match(s) is not None
     if k == "doctest":
@@ -111,7 +111,7 @@ def leaf_oracle(d, s):
     if k == "dircontains":
         return os.path.isdir(p) and sorted(os.listdir(p)) == sorted(d[1])
     if k == "samepath":
-        return os.path.realpath(p) == os.path.realpath(os.path.join(SCRATCH, d[1]))
+        return os.path.realpath(os.path.join(SCRATCH, s)) == os.path.realpath(os.path.join(SCRATCH, d[1]))
     raise ValueError(d)
 
 
